@@ -46,6 +46,9 @@ CHECKS = {
  "C20": ("exploration", "runtime monitoring: admission oracle over the real Pipeline.In (sizes, cut-off, decoders, PassEvent) and a possible-worlds reference model of the antispam counter mechanism over sequential and concurrent IsSpam/Maintenance histories",
    "Part A: every record is classified refused/delivered(+cut, mark) by an oracle written from the settings' documentation and compared with what In returns and what reaches the output; Part B: antispam decisions compared with a reference that keeps every documented reading open and checks the count-based claims.",
    "antispam README is the specification of the counter mechanism; no wall clock", "DESIGN.md §3 C20"),
+ "C15": ("exploration", "runtime monitoring: per-(source,stream) reference model of run reassembly vs the real join / join_template / k8s-multiline actions inside real multi-processor pipelines under -race; time-out splits accepted only where the harness's own clock shows a feeder gap >= event_timeout",
+   "Each case is a real pipeline with several sources x streams over 1-16 processors; every output event is decided by a reference model (ids, joined bytes, order, no loss/duplicate/foreign bytes); lines carry source/stream/index tags.",
+   "Go regexp is shared for start/continue classification; pauses are measured in streamer heartbeat ticks", "DESIGN.md §3 C15"),
 }
 
 PENDING_REASON = "check not built yet in this round (runtime-monitoring design in DESIGN.md §3); not claimed until its monitor exists and is silent on the unchanged tree"
